@@ -22,7 +22,7 @@ from ..vloop import HarnessError, timer_name
 from ..world import ConnWorld, mk
 
 ADDR = {1: 0xAABBCCDDEE01, 2: 2**64 - 1}  # the second address is the largest value the wire type (uint64) can carry
-HAND = {1: 0x10, 2: 0x20}
+HAND = {1: 0x10, 2: 0}  # handle 0 is a handle like any other (and the value a "no handle" test would confuse it with)
 
 GATT = {  # op kind -> (request message, response atom letter, timeout passed by the caller - deliberately not the default)
     "read": ("BluetoothGATTReadRequest", "R", 31.0),
